@@ -368,6 +368,33 @@ func c15Jobs() []sjob {
 			}
 			x.obs = transcriptOf(key, r1)
 		}},
+		{"H14 two connections asking for user names in spellings the configuration does not have", func(x *sx) {
+			w := newSWorldR(e.Cfg, nil)
+			w.serve()
+			var r1, r2 [][]byte
+			var wg vsyncrt.WaitGroup
+			wg.Add(2)
+			c1 := w.W.NewConn(1, srvx.Addr4(10, 0, 0, 1, 1001))
+			c2 := w.W.NewConn(2, srvx.Addr4(10, 0, 0, 2, 1002))
+			acct := func(user string, sid int) []byte {
+				typ, minor, body := rPkt{Kind: "acct", User: user, Flags: 2}.body()
+				return ref.Packet(ref.Header{Version: 0xc0 | minor, Type: typ, Seq: 1, Session: sidOf(sid)}, key, body)
+			}
+			vsyncrt.Go(func() {
+				sclient(w, c1, [][]byte{authorPkt(key, "OWN", 1, "service=shell", "cmd=show"), acct(" own", 3)}, &r1, true)
+				wg.Done()
+			})
+			vsyncrt.Go(func() {
+				sclient(w, c2, [][]byte{acct("Own ", 2), authorPkt(key, "oWn", 4, "service=shell", "cmd=show")}, &r2, true)
+				wg.Done()
+			})
+			wg.Wait()
+			w.shutdown()
+			if len(r1) != 2 || len(r2) != 2 {
+				x.fail("H14/functional", fmt.Sprintf("%d and %d replies for 2 requests each", len(r1), len(r2)))
+			}
+			x.obs = transcriptOf(key, r1) + transcriptOf(key, r2)
+		}},
 		{"H13 reload introducing new command patterns while a command with pattern rules is being authorized", func(x *sx) {
 			w := newSWorldR(e.Cfg, nil)
 			w.serve()
@@ -879,6 +906,14 @@ func c17Jobs(quick bool) []sjob {
 		jobs = append(jobs, sjob{"pacing, script (each event digested before the next) " + strings.Join(s, " "), c17Body(s, false, true)})
 		jobs = append(jobs, sjob{"pacing, sessions left pending, script (each event digested before the next) " + strings.Join(s, " "), c17Body(s, true, true)})
 		jobs = append(jobs, sjob{"pacing, proxy mode, script (each event digested before the next) " + strings.Join(s, " "), c17Body(s, false, true, true)})
+	}
+	// the accept loop has already seen the cancellation (X, A) when a connection's next packet arrives and is handled
+	if quick {
+		for _, s := range [][]string{{"C", "X", "A", "F0"}, {"C", "X", "A", "P0"}, {"C", "C", "X", "A", "F1"}, {"C", "F0", "X", "A", "F0"}} {
+			s := s
+			jobs = append(jobs, sjob{"cancellation seen by the accept loop first, script " + strings.Join(s, " "), c17Body(s, false, false)})
+			jobs = append(jobs, sjob{"cancellation seen by the accept loop first, script (each event digested before the next) " + strings.Join(s, " "), c17Body(s, false, true)})
+		}
 	}
 	// the embedding program closes the listener itself (L) while connections are idle, mid-packet or mid-exchange, before
 	// or after it cancels: Serve still returns only when every connection goroutine has finished
